@@ -258,21 +258,29 @@ class Ctx:
         tag = tag or cfg.replace(".cfg", "")
         if parts is None:
             parts = max(1, min(8, n // 150))
+            # a part is read into the JVM whole (ndJsonDeserialize): keep it under ~15 MB / 60,000 observations; 8 run at a time
+            parts = max(parts, (os.path.getsize(obsfile) + 15000000 - 1) // 15000000, (n + 59999) // 60000)
         if parts == 1:
             return self._validate_one(module, cfg, obsfile, n, env, timeout, tag, heap)
         import concurrent.futures
         with open(obsfile) as fh:
             lines = [l for l in fh if l.strip()]
+        # cut by size as well as by count (long observations cluster at the end of some files)
         per = (len(lines) + parts - 1) // parts
+        budget = max(1, sum(len(l) for l in lines) // parts) + 1
         chunks = []
-        for k in range(parts):
-            sub = lines[k * per:(k + 1) * per]
-            if not sub:
-                continue
+        start = 0
+        while start < len(lines):
+            end, size = start, 0
+            while end < len(lines) and end - start < per and (size + len(lines[end]) <= budget or end == start):
+                size += len(lines[end])
+                end += 1
+            k = len(chunks)
             pth = "%s.part%d" % (obsfile, k)
             with open(pth, "w") as fh:
-                fh.writelines(sub)
-            chunks.append((k, pth, len(sub), k * per))
+                fh.writelines(lines[start:end])
+            chunks.append((k, pth, end - start, start))
+            start = end
         fails, stats = [], []
 
         def work(c):
@@ -286,7 +294,7 @@ class Ctx:
             return f, st
 
         t = time.time()
-        with concurrent.futures.ThreadPoolExecutor(max_workers=len(chunks)) as ex:
+        with concurrent.futures.ThreadPoolExecutor(max_workers=min(8, len(chunks))) as ex:
             for f, st in ex.map(work, chunks):
                 fails += f
                 stats += st
